@@ -13,9 +13,11 @@
    21 = Raft log: a well-formed entry applied by the FSM loop (one shared LogOp decoded into for every entry) did not hand
         the tracker the submitted pin, or the state did not read back its stored form - whatever the earlier entries were
         (tag 1: the pin carries origins);
+   23 = add parameters well-formed for the query form (wf_ap) do not come back from ToQueryString / AddParamsFromQuery as
+        themselves up to the documented losses (lossy_ap: PinUpdate, empty metadata keys, empty chunker / hash read as the defaults);
    22 = a stream of records (snapshot of a pinset through State.Marshal / Unmarshal, state export / import) does not hand
         every well-formed pin back as its own stored form. *)
-From V Require Import Base.Common Base.C08_Str Model.C08_Codec Model.C08_Query Model.C08_Status Base.C08_Schema Gen.C08Tags Model.C08_Fmap Model.C08_Equals Model.C08_Wire Model.C08_Reuse.
+From V Require Import Base.Common Base.C08_Str Model.C08_Codec Model.C08_Query Model.C08_Status Base.C08_Schema Gen.C08Tags Model.C08_Fmap Model.C08_Equals Model.C08_Wire Model.C08_Reuse Model.C08_AddParams.
 Open Scope Z_scope.
 
 (* ---- decidable equalities on the value types ---- *)
@@ -71,6 +73,28 @@ Definition model_qcycle (orc : oracle) (o : opts) : obs_q :=
   | Err => ObsQEncErr
   | Ok q => match from_query orc (0, 0%N) zero_opts q with Ok o' => ObsQ o' | Err => ObsQDecErr end
   end.
+
+(* ---- add parameters through their query form ---- *)
+Definition addp_eqb (a b : addp) : bool :=
+  opts_eqb (a_opts a) (a_opts b) && Bool.eqb (a_local a) (a_local b) && Bool.eqb (a_recursive a) (a_recursive b)
+  && Bool.eqb (a_hidden a) (a_hidden b) && Bool.eqb (a_wrap a) (a_wrap b) && Bool.eqb (a_shard a) (a_shard b)
+  && Bool.eqb (a_stream a) (a_stream b) && String.eqb (a_format a) (a_format b) && String.eqb (a_layout a) (a_layout b)
+  && String.eqb (a_chunker a) (a_chunker b) && Bool.eqb (a_rawleaves a) (a_rawleaves b) && Bool.eqb (a_progress a) (a_progress b)
+  && (a_cidver a =? a_cidver b) && String.eqb (a_hash a) (a_hash b) && Bool.eqb (a_nocopy a) (a_nocopy b).
+Inductive obs_a := ObsA (p : addp) | ObsAEncErr | ObsADecErr.
+Definition obs_a_eqb (a b : obs_a) : bool :=
+  match a, b with
+  | ObsA x, ObsA y => addp_eqb x y
+  | ObsAEncErr, ObsAEncErr | ObsADecErr, ObsADecErr => true
+  | _, _ => false end.
+(* ToQueryString, the wire, AddParamsFromQuery *)
+Definition model_acycle (orc : oracle) (p : addp) : obs_a :=
+  match add_params_to_query orc p with
+  | Err => ObsAEncErr
+  | Ok q => match add_params_from_query orc (0, 0%N) q with Ok p' => ObsA p' | Err => ObsADecErr end
+  end.
+Definition spec_a (orc : oracle) (p : addp) (ob : obs_a) : bool :=
+  if wf_ap orc p then obs_a_eqb ob (ObsA (lossy_ap p)) else true.
 
 (* ---- generic record values ---- *)
 Fixpoint val_eqb (a b : val) {struct a} : bool :=
@@ -189,6 +213,8 @@ Fixpoint spec_stream (kind : N) (ps : list pin) (obs : list obs_pin) : bool :=
   end.
 
 Inductive payload :=
+  | CAddP (orc : oracle) (p : addp) (ob : obs_a)          (* AddParams through ToQueryString / url / AddParamsFromQuery *)
+  | CAddRaw (orc : oracle) (q : query) (ob : obs_a)       (* AddParamsFromQuery on an arbitrary query (no expire-in) *)
   | COnto (c : codec) (tn : string) (a b : val) (o : obs_v)   (* b decoded on top of a destination that holds a *)
   | CStream (kind : N) (ps : list pin) (obs : list obs_pin)   (* 0: State.Marshal / Unmarshal of a pinset; 1: exportState / importState; what each pin reads back as *)
   | CLogOp (es : list (Z * pin)) (obs : list step_res)   (* entries pushed through decode-into-the-shared-op + ApplyTo, what each did *)
@@ -238,6 +264,11 @@ Definition spec_qraw (old : opts) (ob ob2 : obs_q) : bool :=
 Definition check_case (c : case) : list (N * N * N) :=
   let '(id, pl) := c in
   match pl with
+  | CAddP orc p ob =>
+      fail_if (negb (obs_a_eqb (model_acycle orc p) ob)) id 1 0 ++
+      fail_if (negb (spec_a orc p ob)) id 23 0
+  | CAddRaw orc q ob =>
+      fail_if (negb (obs_a_eqb (match add_params_from_query orc (0, 0%N) q with Ok p => ObsA p | Err => ObsADecErr end) ob)) id 1 0
   | COnto c tn a b o => fail_if (negb (obs_v_eqb (model_onto c tn a b) o)) id 1 0
   | CStream kind ps obs =>
       fail_if (negb (pin_layout_ok && list_eqb obs_pin_eqb (map (stream_model kind) ps) obs)) id 1 0 ++
